@@ -1,4 +1,6 @@
 import ClusterVerif.Spec.C10
+import ClusterVerif.Model.C10Source
+import ClusterVerif.Gen.C10
 import ClusterVerif.Lemmas.C04
 import Batteries.Data.Nat.Bitwise.Lemmas
 import Mathlib.Data.List.Basic
@@ -394,5 +396,19 @@ private def exBase : C04.Cfg :=
   { follower := false, defMin := 1, defMax := 1, desc := false, peers := [], paths := [], blocks := [] }
 private def exPc : PeerCfg := { self := 0, follower := false, disableRepin := false, base := exBase }
 example : handleAlerts exPc [] [.skipped, .ping exW 1 (fun _ => [])] = [] := by decide
+
+/-! ### The anchored functions still read as the model was transcribed (regenerated from /repo on every run) -/
+
+theorem gen_source_alertsHandler : Gen.alertsHandler = Expected.alertsHandler := rfl
+theorem gen_source_repinFromPeer : Gen.repinFromPeer = Expected.repinFromPeer := rfl
+theorem gen_source_vacatePeer : Gen.vacatePeer = Expected.vacatePeer := rfl
+theorem gen_source_peerRemove : Gen.peerRemove = Expected.peerRemove := rfl
+theorem gen_source_stateSync : Gen.stateSync = Expected.stateSync := rfl
+theorem gen_source_distances : Gen.distances = Expected.distances := rfl
+theorem gen_source_getTrustedPeers : Gen.getTrustedPeers = Expected.getTrustedPeers := rfl
+theorem gen_source_isClosest : Gen.isClosest = Expected.isClosest := rfl
+theorem gen_source_convertPeerID : Gen.convertPeerID = Expected.convertPeerID := rfl
+theorem gen_source_convertKey : Gen.convertKey = Expected.convertKey := rfl
+
 
 end CV.C10
